@@ -78,7 +78,8 @@ def read(arg: dict) -> dict:
     from explorerscript.cli import decompile as D
     from explorerscript.cli import check_settings
     doc = arg["doc"]
-    D.counter.count = 0     # a fresh process
+    if hasattr(D, "counter"):       # before fix 5dd8dac the ops were numbered by a module-level counter: start like a fresh process
+        D.counter.count = 0
     try:
         check_settings(doc)
         infos, named, ops = D.read_routines(doc["routines"])
@@ -96,40 +97,6 @@ def build_many(args: list[dict]) -> list[dict]:
 
 def read_many(args: list[dict]) -> list[dict]:
     return [read(a) for a in args]
-
-
-# ---- reference implementation of the PROPOSED repair of cli/compile.py (harness side, for the Lean `buildJsonFixed`) ----
-def build_fixed(arg: dict) -> dict:
-    from explorerscript.cli import compile as C
-    from explorerscript.ssb_converting.ssb_special_ops import OPS_WITH_JUMP_TO_MEM_OFFSET
-    from explorerscript.ssb_converting.ssb_data_types import SsbOperation
-    infos, ops, _ = rsjson.rs_from_json(arg["rs"])
-    names = [n if n is not None else [] for n in arg["rs"]["coros"]]
-    positions: dict[int, int] = {}
-    n = 0
-    for r in ops:
-        for op in r:
-            n += 1
-            positions.setdefault(op.offset, n)
-    new_ops = []
-    for r in ops:
-        row = []
-        for op in r:
-            params = list(op.params)
-            idx = OPS_WITH_JUMP_TO_MEM_OFFSET.get(op.op_code.name)
-            if idx is not None and idx < len(params) and isinstance(params[idx], int):
-                params[idx] = positions.get(params[idx], params[idx])
-            row.append(SsbOperation(op.offset, op.op_code, params))
-        new_ops.append(row)
-    try:
-        out = {"settings": arg["settings"], "routines": C.build_routines_json(infos, names, new_ops)}
-        return {"json": to_wire(json.loads(json.dumps(out)))}
-    except BaseException as e:  # noqa
-        return _err(e)
-
-
-def build_fixed_many(args: list[dict]) -> list[dict]:
-    return [build_fixed(a) for a in args]
 
 
 # ---- real subprocesses ---------------------------------------------------------------------------------------------
